@@ -164,6 +164,13 @@ pub struct LogicalOpts {
     /// (loose / concat) the directory pack is listed after the first content pack in the manifest
     /// instead of first
     pub dir_not_first: bool,
+    /// (loose / concat) packs (bit p-1) whose recorded location is a URL with a scheme the default
+    /// locator cannot follow ("https://..."): when such a pack is not inside the file at hand it
+    /// is, for a reader, simply not available
+    pub url_located: u32,
+    /// (concat) packs (bit p-1) that are left out of the concatenated file (a "light edition"):
+    /// with empty recorded locations they can be found nowhere
+    pub concat_leave_out: u32,
     /// (loose / concat) a second content pack with the id of pack 1 is listed after the others: an
     /// "alternative" (the format allows several packs per id; the one declared first wins)
     pub alternative_of_pack1: bool,
@@ -219,6 +226,9 @@ pub struct Model {
     pub absent_ids: u32,
     /// packs the manifest lists beyond one per id (alternatives)
     pub extra_listed: u32,
+    /// packs (bit p-1) that a reader of the container as built cannot find anywhere: it must
+    /// report them missing
+    pub unavailable: u32,
 }
 
 impl Model {
@@ -771,6 +781,11 @@ pub fn plan_model(logical: &Logical) -> Model {
         n_packs: logical.n_packs,
         pack_counts: vec![0; logical.n_packs as usize + 1],
         absent_ids: logical.opts.absent_ids,
+        unavailable: match logical.packaging {
+            Packaging::Loose => logical.opts.url_located,
+            Packaging::Concat => logical.opts.concat_leave_out,
+            _ => 0,
+        },
         ..Default::default()
     };
     for c in &logical.contents {
@@ -790,6 +805,9 @@ pub fn plan_model(logical: &Logical) -> Model {
 /// the manifest (see `LogicalOpts::pack_location_style`).
 pub fn pack_location(logical: &Logical, name: &str, p: u16) -> String {
     let file = format!("{name}.c{p}.jbkc");
+    if p >= 1 && p <= 32 && logical.opts.url_located & (1 << (p - 1)) != 0 {
+        return format!("https://packs.example.org/editions/{file}");
+    }
     match (logical.packaging, logical.opts.pack_location_style) {
         (Packaging::Loose, 1) => format!("sub/{file}"),
         (Packaging::Loose, 2) => format!("../sib/{file}"),
@@ -877,7 +895,11 @@ fn build_inner(
                 if logical.opts.is_absent(p) {
                     continue;
                 }
-                let path = dir.join(pack_location(logical, name, p));
+                let path = if logical.opts.url_located & (1 << (p - 1)) != 0 {
+                    dir.join(format!("{name}.c{p}.jbkc"))
+                } else {
+                    dir.join(pack_location(logical, name, p))
+                };
                 if let Some(parent) = path.parent() {
                     std::fs::create_dir_all(parent)?;
                 }
@@ -1004,6 +1026,13 @@ fn build_inner(
             }
             if logical.packaging == Packaging::Concat {
                 let mut order = files.clone();
+                for p in 1..=logical.n_packs {
+                    if logical.opts.concat_leave_out & (1 << (p - 1)) != 0 {
+                        if let Some(f) = pack_files.get(&p) {
+                            order.retain(|x| x != f);
+                        }
+                    }
+                }
                 let mut rng = Rng::derive(logical.aux_seed, "concat-order", 0);
                 rng.shuffle(&mut order);
                 if logical.opts.concat_dup {
